@@ -12,6 +12,10 @@ local notation "P" => Dec.P
 
 theorem P_lt_2_60' : P < 2 ^ 60 := by rw [P_val]; norm_num
 
+/-- peel one step of a `do` block (cheap for the kernel, unlike unfolding `Except.bind` by simp) -/
+theorem bind_eq_of_ok {ε α β} {x : Except ε α} {a : α} (f : α → Except ε β) (h : x = .ok a) : (x >>= f) = f a := by
+  subst h; rfl
+
 /-- rounding to an integer amount never exceeds the bound `B` when the decimal is ≤ B -/
 theorem chopRoundNat_le_of_le {v B : Nat} (h : v ≤ B * P) : Dec.chopRoundNat v ≤ B := by
   have h1 := chopRoundNat_le v
@@ -52,17 +56,16 @@ theorem Dec_quo_nat {a b : Dec} {x y : Nat} (ha : a.i = x) (hb : b.i = y) (hy : 
   unfold Dec.quo
   rw [ha, hb]
   have hy' : ¬ ((y : Int) = 0) := by exact_mod_cast hy
-  simp only [hy', if_false]
+  rw [if_neg hy']
   have hdiv : Int.tdiv ((x : Int) * (P : Int) * (P : Int)) (y : Int) = ((x * P * P / y : Nat) : Int) := by
     rw [Int.tdiv_eq_ediv_of_nonneg (by positivity)]
     push_cast; rfl
   rw [hdiv]
   unfold Dec.chopRound Dec.chk
   have hnn : ¬ (((x * P * P / y : Nat) : Int) < 0) := not_lt.mpr (by positivity)
-  simp only [hnn, if_false, Int.natAbs_natCast]
-  have : bitLen ((Dec.chopRoundNat (x * P * P / y) : Int)).natAbs ≤ Dec.maxBits := by
-    rw [Int.natAbs_natCast]; exact bitLen_le_of_lt hfit
-  simp only [this, if_true]
+  rw [if_neg hnn, Int.natAbs_natCast]
+  have : bitLen (Dec.chopRoundNat (x * P * P / y)) ≤ Dec.maxBits := bitLen_le_of_lt hfit
+  rw [Int.natAbs_natCast, if_pos this]
 
 /-- a share `x / y` with `x ≤ y` is at most 1 -/
 theorem share_le_P {x y : Nat} (hxy : x ≤ y) (hy : 0 < y) : Dec.chopRoundNat (x * P * P / y) ≤ P := by
@@ -73,13 +76,17 @@ theorem share_le_P {x y : Nat} (hxy : x ≤ y) (hy : 0 < y) : Dec.chopRoundNat (
 
 theorem roundToUint_nat {d : Dec} {v : Nat} (hd : d.i = v) (hlt : Dec.chopRoundNat v < two256) :
     roundToUint d = .ok (Dec.chopRoundNat v) := by
-  unfold roundToUint Dec.roundInt Dec.chopRound Uint.ofInt Uint.chk
+  unfold roundToUint Dec.roundInt Dec.chopRound Uint.ofInt
   rw [hd]
   have hnn : ¬ ((v : Int) < 0) := not_lt.mpr (by positivity)
+  rw [if_neg hnn, Int.natAbs_natCast]
   have hnn2 : ¬ ((Dec.chopRoundNat v : Int) < 0) := not_lt.mpr (by positivity)
-  simp only [hnn, if_false, Int.natAbs_natCast, hnn2, Int.toNat_natCast, hlt, if_true]
+  rw [if_neg hnn2, Int.toNat_natCast]
+  unfold Uint.chk
+  rw [if_pos hlt]
 
 theorem two255_lt : (2 : Nat) ^ 255 < two256 := by unfold two256; norm_num
+theorem two60_lt : (2 : Nat) ^ 60 < 2 ^ 315 := by norm_num
 
 /-- `CalcProviderDistributionAmount`: a provider with `u ≤ units` of a pool gets a non-negative
     amount ≤ B of a distribution `rp ≤ B·10^18`, no panic -/
@@ -92,18 +99,19 @@ theorem provAmount_ok {rp : Dec} {rpv B units u : Nat} (hrp : rp.i = rpv) (hB : 
     share_le_P (Nat.mul_le_mul_right _ hu) (Nat.pos_of_ne_zero hy)
   have hP60 := P_lt_2_60'
   have hq := Dec_quo_nat (a := decOfUint u) (b := decOfUint units) (decOfUint_i u) (decOfUint_i units) hy
-    (lt_of_le_of_lt hshare (lt_trans hP60 (by norm_num)))
-  simp only [hq, bind, Except.bind]
-  set pct := Dec.chopRoundNat (u * P * P * P / (units * P)) with hpct
-  have hpr_le : mulNat pct rpv ≤ rpv := mulNat_le_of_le_P hshare
+    (lt_of_le_of_lt hshare (lt_trans hP60 two60_lt))
+  rw [bind_eq_of_ok _ hq]
+  have hpr_le : mulNat (Dec.chopRoundNat (u * P * P * P / (units * P))) rpv ≤ rpv := mulNat_le_of_le_P hshare
   have hrpv315 : rpv < 2 ^ 315 := by
     calc rpv ≤ B * P := hB
       _ < 2 ^ 255 * 2 ^ 60 := Nat.mul_lt_mul'' hB255 hP60
       _ = 2 ^ 315 := by rw [← pow_add]
-  have hm := Dec_mul_nat (a := ⟨(pct : Int)⟩) (b := rp) rfl hrp (lt_of_le_of_lt hpr_le hrpv315)
-  simp only [hm]
-  have hround : Dec.chopRoundNat (mulNat pct rpv) ≤ B := chopRoundNat_le_of_le (le_trans hpr_le hB)
-  have h256 : Dec.chopRoundNat (mulNat pct rpv) < two256 := lt_of_le_of_lt hround (lt_trans hB255 two255_lt)
+  have hm := Dec_mul_nat (a := ⟨((Dec.chopRoundNat (u * P * P * P / (units * P)) : Nat) : Int)⟩) (b := rp) rfl hrp (lt_of_le_of_lt hpr_le hrpv315)
+  rw [bind_eq_of_ok _ hm]
+  have hround : Dec.chopRoundNat (mulNat (Dec.chopRoundNat (u * P * P * P / (units * P))) rpv) ≤ B :=
+    chopRoundNat_le_of_le (le_trans hpr_le hB)
+  have h256 : Dec.chopRoundNat (mulNat (Dec.chopRoundNat (u * P * P * P / (units * P))) rpv) < two256 :=
+    lt_of_le_of_lt hround (lt_trans hB255 two255_lt)
   rw [roundToUint_nat rfl h256]
   exact ⟨_, rfl, hround⟩
 
@@ -112,15 +120,17 @@ theorem clampStep_ok {cap total pr B : Nat} (ht : total ≤ cap) (hcap : cap ≤
     ∃ t' pr', clampStep cap total pr = .ok (t', pr') ∧ t' ≤ cap := by
   unfold clampStep
   have hsum : total + pr < two256 := by
-    have : total + pr < 2 ^ 255 + 2 ^ 255 := by omega
-    unfold two256; omega
-  simp only [Uint.add, Uint.chk, hsum, if_true, bind, Except.bind]
+    have h2 : (2 : Nat) ^ 255 + 2 ^ 255 = two256 := by unfold two256; norm_num
+    omega
+  have hadd : Uint.add total pr = .ok (total + pr) := by unfold Uint.add Uint.chk; rw [if_pos hsum]
+  rw [bind_eq_of_ok _ hadd]
   by_cases hgt : total + pr > cap
-  · simp only [hgt, if_true, Uint.sub]
+  · rw [if_pos hgt]
     have h1 : pr ≤ total + pr := Nat.le_add_left _ _
-    simp only [h1, if_true, Nat.add_sub_cancel, ht, pure, Except.pure]
-    exact ⟨cap, cap - total, rfl, le_refl _⟩
-  · simp only [hgt, if_false, pure, Except.pure]
+    have hs1 : Uint.sub (total + pr) pr = .ok total := by unfold Uint.sub; rw [if_pos h1, Nat.add_sub_cancel]
+    have hs2 : Uint.sub cap total = .ok (cap - total) := by unfold Uint.sub; rw [if_pos ht]
+    exact ⟨cap, cap - total, by rw [bind_eq_of_ok _ hs1, bind_eq_of_ok _ hs2]; rfl, le_refl _⟩
+  · rw [if_neg hgt]
     exact ⟨total + pr, pr, rfl, by omega⟩
 
 /-- the provider loop of `CollectProviderDistribution` -/
@@ -138,7 +148,7 @@ theorem provLoop_ok {rp : Dec} {rpv B cap units : Nat} (hrp : rp.i = rpv) (hB : 
     obtain ⟨r, hr, hr1⟩ := ih t' (fun v hv => hlp v (List.mem_cons_of_mem _ hv)) ht'
     refine ⟨(r.1, pr' :: r.2), ?_, hr1⟩
     unfold provLoop
-    simp only [ha, hc, hr, bind, Except.bind, pure, Except.pure]
+    rw [bind_eq_of_ok _ ha, bind_eq_of_ok _ hc, bind_eq_of_ok _ hr]; rfl
 
 /-- `CollectProviderDistribution` for a rate in [0,1] on an amount below 2^255: total ≤ amount -/
 theorem collectPD_ok {rate : Dec} {rv amt units : Nat} (hr : rate.i = rv) (hr1 : rv ≤ P) (hamt : amt < 2 ^ 255)
@@ -156,11 +166,10 @@ theorem collectPD_ok {rate : Dec} {rv amt units : Nat} (hr : rate.i = rv) (hr1 :
       _ = 2 ^ 315 := by rw [← pow_add]
   have hm := Dec_mul_nat (a := rate) (b := decOfUint amt) hr (decOfUint_i amt) hfit
   rw [hval] at hm
-  simp only [hm, bind, Except.bind]
+  rw [bind_eq_of_ok _ hm]
   have hcap : Dec.chopRoundNat (rv * amt) ≤ amt := chopRoundNat_le_of_le hle
   have h256 : Dec.chopRoundNat (rv * amt) < two256 := lt_of_le_of_lt hcap (lt_trans hamt two255_lt)
-  rw [roundToUint_nat (d := ⟨((rv * amt : Nat) : Int)⟩) rfl h256]
-  simp only
+  rw [bind_eq_of_ok _ (roundToUint_nat (d := ⟨((rv * amt : Nat) : Int)⟩) rfl h256)]
   cases lps with
   | nil => exact ⟨(0, []), rfl, Nat.zero_le _⟩
   | cons u us =>
